@@ -5,7 +5,7 @@ import re
 import re._constants as sc
 import re._parser as sp
 
-PROBE = [chr(i) for i in range(128)] + ["\x85", "\xe9", "中", " ", "\U0001f600"]
+PROBE = [chr(i) for i in range(128)] + ["\x85", "\xe9", "中", " ", "\U0001f600", "\u0663", "\uff15"]  # incl. two non-ASCII decimal digits (what \\d means in a str pattern)
 PROBE_SET = set(PROBE)
 
 _CAT = {
@@ -260,3 +260,37 @@ def guard_excludes(pattern, flags, method, forbidden):
             return False, "`$` also matches before a trailing newline: a value ending in LF passes the guard"
         return True, "anchored with $"
     return False, "the match need not reach the end of the string"
+
+
+def percent_escapes(p):
+    """Every place where a literal '%' is directly followed by a counted repeat of a character class: [(count_min, count_max, items)].
+    Used to decide that what a pattern accepts as a percent-escape is '%' + ASCII hex digits."""
+    out = []
+
+    def seq(data):
+        data = list(data)
+        for i, (op, av) in enumerate(data):
+            if op is sc.LITERAL and av == ord("%") and i + 1 < len(data):
+                op2, av2 = data[i + 1]
+                if op2 in (sc.MAX_REPEAT, sc.MIN_REPEAT, sc.POSSESSIVE_REPEAT):
+                    inner = list(av2[2])
+                    if len(inner) == 1 and inner[0][0] is sc.IN:
+                        out.append((av2[0], av2[1], inner[0][1]))
+                    elif len(inner) == 1 and inner[0][0] is sc.CATEGORY:
+                        out.append((av2[0], av2[1], [inner[0]]))
+                elif op2 is sc.IN and i + 2 < len(data) and data[i + 2][0] is sc.IN:
+                    out.append((1, 1, av2))
+                    out.append((1, 1, data[i + 2][1]))
+            if op is sc.SUBPATTERN:
+                seq(av[3])
+            elif op in (sc.MAX_REPEAT, sc.MIN_REPEAT, sc.POSSESSIVE_REPEAT):
+                seq(av[2])
+            elif op is sc.BRANCH:
+                for b in av[1]:
+                    seq(b)
+            elif op in (sc.ASSERT, sc.ASSERT_NOT):
+                seq(av[1])
+            elif op is sc.ATOMIC_GROUP:
+                seq(av)
+    seq(p)
+    return out
